@@ -118,6 +118,12 @@ def c_conv(kind, dw_from, dw_to):
             h.ensure(f"ens.{ch}.bytes@full-size-whole-words", z3.Implies(z3.And(incr, full, whole), z3.And(bytes_f == bytes_t, ule(h.v(t.size), lt))))
             h.ensure(f"ens.{ch}.bytes@narrow-whole-words", z3.Implies(z3.And(incr, z3.Not(full), whole), bytes_f == bytes_t))
             h.ensure(f"ens.{ch}.addr", h.v(t.addr) == h.v(f.addr))
+        # burst type: "the same bytes in the same order" - an incrementing burst stays incrementing and a wrapping burst stays wrapping (its
+        # wrap boundary (len+1)*2**size is the same number of bytes on both sides); a single-beat FIXED burst may become INCR (the down-converter
+        # walks through the sub-words of the one word); the reserved encoding is never produced from a legal type
+        fb, tb = h.v(f.burst), h.v(t.burst)
+        h.ensure(f"ens.{ch}.burst", z3.And(z3.Implies(fb == K(1, 2), tb == K(1, 2)), z3.Implies(fb == K(2, 2), tb == K(2, 2)),
+                                            z3.Implies(z3.And(fb == K(0, 2), h.v(f.len) == K(0, 8)), z3.Or(tb == K(0, 2), tb == K(1, 2))), z3.Implies(fb != K(3, 2), tb != K(3, 2))))
         h.ensure(f"ens.{ch}.valid", z3.And(h.v(t.valid) == h.v(f.valid), h.v(f.ready) == h.v(t.ready), h.v(t.id) == h.v(f.id)))
     h.ensure("ens.b", z3.And(h.v(a.b.valid) == h.v(c.b.valid), h.v(c.b.ready) == h.v(a.b.ready), h.v(a.b.resp) == h.v(c.b.resp), h.v(a.b.id) == h.v(c.b.id)))
     # R side band (id/resp) must be stable while a read beat is stalled (AXI: payload stable while valid & ~ready)
